@@ -267,23 +267,55 @@ var passNames = map[string]bool{"resolve": true, "resolveImports": true, "resolv
 
 func runR14_7(c *Ctx, r *R) {
 	have := map[string]bool{}
-	for _, fn := range c.SrcFuncs("internal/lang/model") {
-		if !passNames[fn.Name()] && fn.Parent() == nil {
-			continue
+	inPkg := func(f *ssa.Function) bool {
+		return f != nil && f.Pkg != nil && f.Pkg.Pkg.Path() == pkgPath("internal/lang/model")
+	}
+	// the pass functions a function reaches: directly, through helpers of the package that are not passes
+	// themselves (eachFile), and through function values handed to such a helper that invokes its parameter
+	// (p.eachFile((*File).compile))
+	var reach func(fn *ssa.Function, depth int, seen map[*ssa.Function]bool, out map[*ssa.Function]bool)
+	reach = func(fn *ssa.Function, depth int, seen map[*ssa.Function]bool, out map[*ssa.Function]bool) {
+		if fn == nil || seen[fn] || depth > 4 {
+			return
 		}
-		root := fn
-		for root.Parent() != nil {
-			root = root.Parent()
-		}
-		if !passNames[root.Name()] {
-			continue
-		}
-		for _, call := range callsIn(fn, false) {
+		seen[fn] = true
+		for _, call := range callsIn(fn, true) {
 			cal := call.Common().StaticCallee()
-			if cal == nil || cal.Pkg == nil || cal.Pkg.Pkg.Path() != pkgPath("internal/lang/model") || !passNames[cal.Name()] {
+			if cal == nil || !(inPkg(cal) || cal.Synthetic != "" || cal.Parent() != nil) {
 				continue
 			}
-			have[strings.TrimPrefix(fnKey(root), "internal/lang/model.")+" -> "+strings.TrimPrefix(fnKey(cal), "internal/lang/model.")] = true
+			if inPkg(cal) && passNames[cal.Name()] && cal.Synthetic == "" {
+				out[cal] = true
+				continue
+			}
+			reach(cal, depth+1, seen, out)
+			for i, a := range call.Common().Args {
+				fv := funcValueOf(a)
+				if fv == nil {
+					continue
+				}
+				pi := i
+				if call.Common().Signature().Recv() != nil && !call.Common().IsInvoke() {
+					// Args[0] is the receiver for a static method call: parameters line up with cal.Params
+				}
+				if pi < len(cal.Params) && paramInvoked(cal, cal.Params[pi]) {
+					if inPkg(fv) && passNames[fv.Name()] && fv.Synthetic == "" {
+						out[fv] = true
+					} else {
+						reach(fv, depth+1, seen, out)
+					}
+				}
+			}
+		}
+	}
+	for _, fn := range c.SrcFuncs("internal/lang/model") {
+		if !passNames[fn.Name()] || fn.Parent() != nil {
+			continue
+		}
+		out := map[*ssa.Function]bool{}
+		reach(fn, 0, map[*ssa.Function]bool{}, out)
+		for cal := range out {
+			have[strings.TrimPrefix(fnKey(fn), "internal/lang/model.")+" -> "+strings.TrimPrefix(fnKey(cal), "internal/lang/model.")] = true
 		}
 	}
 	if len(passEdges) == 0 {
